@@ -5,11 +5,11 @@ package core
 
 import (
 	"crypto/sha256"
-	"sort"
-	"sync"
 	"encoding/hex"
 	"fmt"
 	"os"
+	"sort"
+	"sync"
 )
 
 // SplitMix64 is the only PRNG of the framework.
@@ -103,7 +103,10 @@ func (c *Chooser) Choose(n int) int {
 
 // EventLog keeps a running digest of everything that happened plus a bounded tail.
 type EventLog struct {
-	h       interface{ Write([]byte) (int, error); Sum([]byte) []byte }
+	h interface {
+		Write([]byte) (int, error)
+		Sum([]byte) []byte
+	}
 	tail    []string
 	max     int
 	n       int
